@@ -27,7 +27,8 @@ def analyse(ix, I, name):
     if len(vals) != 1:
         return f, data, sp, "function has %d return paths" % len(vals)
     dsym = Sym(params[0])
-    w = parse_wrapper(vals[0], lambda a: dsym in Rat.atom(a).atoms())
+    meta = ("size", "len", "ndim", "shape", "dtype")
+    w = parse_wrapper(vals[0], lambda a: dsym in Rat.atom(a).atoms() and not (isinstance(a, Fn) and a.name in meta))
     return f, data, sp, w if not isinstance(w, Wrapper) else (w, vals[0])
 
 
@@ -133,6 +134,13 @@ def run(rep, tier, root=None):
                 rep.check(na == INVERSE_SHIFT[nb], "R1.inverse-shifts", "%s:%s/%s: %s = inverse of %s" % (MOD, fwd, inv, la, lb),
                           "%s is %s but %s is %s: the pair is only inverse for even N" % (la, na, lb, nb), fi.where())
         # ---- R3 scale
+        sized = [a for a in wi.scale.atoms() | wf.scale.atoms() if isinstance(a, Fn) and a.name in ("size", "len", "ndim")]
+        if sized:
+            rep.violation("R3.scale", "%s:%s/%s: scale uses %s" % (MOD, fwd, inv, sorted(a.name for a in sized)),
+                          "the scale factor is built from %s of the whole array, which counts leading batch axes: a stack of B frames is "
+                          "scaled differently from its frames (inverse pair and Parseval fail for batched input)"
+                          % ", ".join(sorted(set(repr(a) for a in sized))), fi.where())
+            continue
         nsyms = [a for a in wi.scale.atoms() if isinstance(a, Sym) and a.name.startswith("shape(")]
         delta, delta_f = Sym(ff.params[1]), Sym(fi.params[1])
         if len(nsyms) != 1:
